@@ -94,7 +94,21 @@ END
 PR2_CASES = [("ber", "3008a003020107810100", True), ("ber", "3008a0030101ff810105", True), ("ber", "300aa00504037a7a7a810200c8", True),
              ("ber", "3008a003020107810105", False), ("ber", "3008a0030101ff810100", False), ("ber", "3008a003020107810107", False),
              ("uper", "0201070100", True), ("uper", "01800105", True), ("uper", "0201070105", False)]
-INTCMP_NULL = re.compile(r"INTEGER\.c:\d+:\d+: runtime error: load of null pointer|SEGV on unknown address 0x0+ .*\n(.*\n){0,6}?.*INTEGER_compare")
+
+# an identifier field whose range constraint gives the identifier member another C representation than the cells
+PR4 = """PR4 DEFINITIONS AUTOMATIC TAGS ::= BEGIN
+  MY-CLASS ::= CLASS { &id INTEGER (0..65535) UNIQUE, &Type } WITH SYNTAX { ID &id TYPE &Type }
+  MySet MY-CLASS ::= { { ID 0 TYPE R1 } | { ID 5 TYPE R2 } | { ID 200 TYPE R3 } }
+  Frame ::= SEQUENCE { id MY-CLASS.&id({MySet}), n INTEGER (0..255), value MY-CLASS.&Type({MySet}{@id}) }
+  R1 ::= INTEGER
+  R2 ::= BOOLEAN
+  R3 ::= OCTET STRING
+END
+"""
+PR4_CASES = [("ber", "300b800105810100a2030101ff", True), ("ber", "300b800105810101a2030101ff", True), ("ber", "300b800100810109a203020107", True),
+             ("ber", "300c800200c8810101a20304017a", True), ("uper", "0005010180", True), ("ber", "300b800105810101a203020107", False),
+             ("ber", "300b800107810101a2030101ff", False)]
+REPMIS = re.compile(r"(SEGV on unknown address 0x0*(5|c8|7)\b|INTEGER\.c:\d+:\d+: runtime error: load of null pointer)(.*\n){0,8}?.*INTEGER_compare")
 
 # the frame written inline (an anonymous SEQUENCE member holding the identifier and the open type)
 PR3 = """PR3 DEFINITIONS AUTOMATIC TAGS ::= BEGIN
@@ -120,9 +134,7 @@ def probe_id_after_open_type(run, p):
         run.case(p["fs"] + " " + l)
         ok = o.startswith("OK %d " % (len(h) // 2))
         if o == "CRASH":
-            if p["rep"] == "wide" and INTCMP_NULL.search(crashes.get(i, "")):
-                run.known_finding("C18-integer-compare-empty-null", l)
-            else:
+            if True:
                 run.violation("crash:identifier-after-open-type", {"module": PR2, "options": p["opts"], "command_line": l, "what": "decoder crashed",
                                                                    "stderr_tail": crashes.get(i, "")[-2500:]})
         elif valid and ok and (s != "ber" or o.split()[2] == h):
@@ -136,6 +148,50 @@ def probe_id_after_open_type(run, p):
             run.violation("oracle:identifier-after-open-type", {"module": PR2, "options": p["opts"], "command_line": l, "c": o, "what": "unexpected driver output"})
     if leak is not None:
         run.violation("leak:identifier-after-open-type", {"module": PR2, "what": "sanitizer report at exit", "stderr_tail": leak[-2500:]})
+
+
+def rep_mismatch(p):
+    """the generated selector reads the identifier member as a (unsigned) long while the cells are INTEGER_t, or the reverse"""
+    try:
+        tables, sels = parse_ioc_tables(os.path.join(p["dir"], "Frame.c"))
+    except (OSError, KeyError, IndexError, ValueError):
+        return False
+    for mem, (tname, ccol, fcol, vtype) in sels.items():
+        t = tables.get(tname)
+        if not t or not t["cells"]:
+            continue
+        ct = t["cells"][0][ccol]["ctype"]
+        if ct in ("long", "unsigned long", "INTEGER_t") and (ct == "INTEGER_t") != (vtype not in ("long", "unsigned long")):
+            return True
+    return False
+
+
+def probe_rep_mismatch(run, p):
+    """finding C18-identifier-representation-mismatch; a clean refusal by asn1c is the (proposed) repaired behaviour"""
+    run.case(p["fs"] + " build PR4")
+    if p.get("asn1c_rc") == 70 and "different C representations" in p.get("asn1c_out", ""):
+        run.count("probe_rep_mismatch_refused")
+        return
+    if not p.get("exe"):
+        run.violation("build:module", {"what": "the probe module with a constrained identifier field does not build", "module": PR4, "options": p["opts"],
+                                       "asn1c_rc": p.get("asn1c_rc"), "asn1c_out": p.get("asn1c_out", "")[-1500:], "build_log": p.get("build_log", "")[-1500:]})
+        return
+    mis = rep_mismatch(p)
+    lines = ["dec Frame %s %s" % (s, h) for s, h, _ in PR4_CASES]
+    outs, crashes, leak = run_resilient(p["exe"], lines)
+    for i, ((s, h, valid), l, o) in enumerate(zip(PR4_CASES, lines, outs)):
+        run.case(p["fs"] + " " + l)
+        ok = o.startswith("OK %d " % (len(h) // 2)) and (s != "ber" or o.split()[2] == h)
+        if (valid and ok) or (not valid and o.startswith(("FAIL", "MORE"))):
+            run.count("probe_rep_mismatch_" + ("valid_ok" if valid else "mismatch_fails"))
+        elif mis and ((o == "CRASH" and REPMIS.search(crashes.get(i, ""))) or (valid and o.startswith(("FAIL", "MORE")))):
+            run.known_finding("C18-identifier-representation-mismatch", l)
+        else:
+            run.violation("crash:constrained-identifier" if o == "CRASH" else "oracle:opentype_roundtrip(constrained identifier)",
+                          {"module": PR4, "options": p["opts"], "command_line": l, "c": o, "what": "frame with a constrained identifier field: valid frame not returned / mismatch not refused",
+                           "representation_mismatch": mis, "stderr_tail": crashes.get(i, "")[-2000:]})
+    if leak is not None:
+        run.violation("leak:constrained-identifier", {"module": PR4, "what": "sanitizer report at exit", "stderr_tail": leak[-2500:]})
 
 
 def probe_inline_frame(run, p):
@@ -261,7 +317,7 @@ def check_table(run, model, m):
     # the selectors: one per open-type member, on this table, constrained by column 0, for the member's column
     for j, mem in enumerate(m["members"]):
         want = (tname, 0, 1 + m["mcols"][j])
-        if sels.get("Frame_" + mem) != want:
+        if (sels.get("Frame_" + mem) or ())[:3] != want:
             bad.append("selector of member %s uses %s, expected %s" % (mem, sels.get("Frame_" + mem), want))
     if bad:
         run.violation("oracle:table_as_written", dict(replay, what="; ".join(bad)))
@@ -745,14 +801,14 @@ def main(tier):
     model = model_build()
     base = corpus(rng, tier)
     probes0 = [{"name": t.split()[0], "text": t, "defs": [("Frame", None)], "probe": fid} for fid, t in PROBES.items()]
-    probes0 += [{"name": n, "text": t, "defs": [("Frame", None)], "probe": None} for n, t in (("PR1", PR1), ("PR2", PR2), ("PR3", PR3))]
+    probes0 += [{"name": n, "text": t, "defs": [("Frame", None)], "probe": None} for n, t in (("PR1", PR1), ("PR2", PR2), ("PR3", PR3), ("PR4", PR4))]
     built = []
     for fs, opts, which in FLAGSETS[tier]:
         rep = "wide" if "-fwide-types" in opts else "native"
         info = {"fs": fs, "opts": " ".join(opts) or "(none)", "rep": rep, "per": "-no-gen-PER" not in opts}
         mods = [dict(m, primary=(prim == fs), **info) for m, prim in base if which == "all" or m["simple"]]
         # the build-level probes do not depend on the options; the run-time probes do (PR2 under both representations)
-        probes = [dict(p, **info) for p in probes0 if fs == "cn" or (p["name"] in ("PR2", "PR3") and fs == "wide")]
+        probes = [dict(p, **info) for p in probes0 if fs == "cn" or (p["name"] in ("PR2", "PR3", "PR4") and fs == "wide")]
         try:
             build_modules(mods + probes, tag="c18_" + fs, opts=opts, moddrv_extra=EXTRA)
         except BuildError as e:
@@ -765,6 +821,8 @@ def main(tier):
             run.case("%s build %s" % (p["fs"], p["name"]))
             if p["name"] == "PR3":
                 probe_inline_frame(run, p)
+            elif p["name"] == "PR4":
+                probe_rep_mismatch(run, p)
             elif p["probe"] is None:
                 if p.get("exe"):
                     (probe_optional_open_type if p["name"] == "PR1" else probe_id_after_open_type)(run, p)
@@ -781,6 +839,7 @@ def main(tier):
             run.count("rows_%d" % len(m["rows"]) if len(m["rows"]) <= 8 else "rows_9+")
             run.count("members_%d%s" % (len(m["mcols"]), "_samecol" if len(set(m["mcols"])) < len(m["mcols"]) else ""))
             run.count("set_" + ("extensible" if m["ext"] else "closed"))
+            run.count("idfield_" + ("%s_%d..%d" % ((m["idkind"],) + m["idcon"]) if m["idcon"] else m["idkind"]))
             run.case("%s build %s" % (m["fs"], m["name"]))
             replay = {"module": m["text"], "options": m["opts"], "asn1c_rc": m.get("asn1c_rc"), "asn1c_out": m.get("asn1c_out", "")[-1500:],
                       "build_log": m.get("build_log", "")[-1500:]}
@@ -802,6 +861,14 @@ def main(tier):
                 continue
             if not m.get("exe"):
                 run.violation("build:module", dict(replay, what="asn1c rejected a generated class/object-set module or its output does not compile"))
+                continue
+            if rep_mismatch(m):
+                # type-confused generated code has no faithful model: the recorded defect, as long as no row is ever selected
+                outs, crashes, leak = run_resilient(m["exe"], ["sel Frame %s" % id_universal_der(m["idkind"], r["id"]).hex() for r in comp_rows(m)])
+                if all(re.match(r"0:-:-( 0:-:-)*$", o) for o in outs) and not crashes:
+                    run.known_finding("C18-identifier-representation-mismatch", m["name"])
+                else:
+                    run.violation("correspondence:OpenType.select", dict(replay, what="identifier member and cells have different C representations and the selector answers", c=outs[:6]))
                 continue
             check_module(run, rng, model, m, tier, "full" if m["primary"] else "light")
     tb = ["Coq 8.16.1 kernel; vm_compute for refuted witnesses and Examples",
